@@ -149,6 +149,11 @@ class Child:
                 init_fn(ev[1])(self.tables[ev[2]])
                 return ["ok"]
             return self.outcome(ini)
+        if k == "reinit":      # <module>.init(T, reload=True): loads if not loaded, loads again if loaded
+            def rini():
+                init_fn(ev[1])(self.tables[ev[2]], reload=True)
+                return ["ok"]
+            return self.outcome(rini)
         if k in ("newtable", "rawtable"):
             def new():
                 from periodictable import mass, density
@@ -266,6 +271,12 @@ def calc(ch, name, arg, T="public"):
         env = activation.ActivationEnvironment(fluence=1e8, Cd_ratio=0, fast_ratio=0)
         s = activation.Sample(arg, 1.0)
         s.calculate_activation(env, exposure=1.0, rest_times=(0, 1))
+        return sorted((str(k.isotope), k.daughter, tuple(v)) for k, v in s.activity.items())
+    if name == "activation_iaea":
+        from periodictable import activation
+        env = activation.ActivationEnvironment(fluence=1e8, Cd_ratio=0, fast_ratio=0)
+        s = activation.Sample(arg, 1.0)
+        s.calculate_activation(env, exposure=1.0, rest_times=(0, 1), abundance=activation.IAEA1987_isotopic_abundance)
         return sorted((str(k.isotope), k.daughter, tuple(v)) for k, v in s.activity.items())
     if name == "magnetic_j0":
         return ch.atom(T, tuple(arg)).magnetic_ff[2].j0_Q(0.3)
